@@ -774,6 +774,9 @@ func (s *sess) next() line {
 		t := r.Pick([]string{"MAIL", "MAIL FROM:", "MAIL FROM:sender@sender.test", "MAIL TO:<x@sender.test>",
 			"MAIL FROM:<a@sender.test> SIZE=99999999999", "MAIL FROM:<a@sender.test> SIZE=20000000", "MAIL FROM:<a@sender.test> BOGUS",
 			"MAIL FROM:<not an address>", "MAIL  FROM:<a@sender.test>", "MAILFROM:<a@sender.test>"})
+		if r.Chance(1, 4) {
+			t = "MAIL FROM:" + r.Letters(r.Range(0, 7), "<><>::@ .\"\\,ab=")
+		}
 		return line{text: caseVerb(r, t), kind: "MAIL-odd"}
 	case 4:
 		return s.lineRcpt()
@@ -782,6 +785,10 @@ func (s *sess) next() line {
 		t := r.Pick([]string{"RCPT", "RCPT TO:", "RCPT TO:<>", "RCPT FROM:<" + a.Text + ">", "RCPT TO:<no-at-sign>",
 			"RCPT TO:<" + a.Text + "> NOTIFY=NEVER", "RCPT <" + a.Text + ">", "RCPT TO:<two..dots@alpha.test>", "RCPT TO:<+ext@alpha.test>",
 			"RCPTTO:<" + a.Text + ">"})
+		if r.Chance(1, 3) {
+			// Bracket soup: every arrangement of the characters the argument parsers look for.
+			t = "RCPT TO:" + r.Letters(r.Range(0, 7), "<><>::@ .\"\\,ab")
+		}
 		return line{text: caseVerb(r, t), kind: "RCPT-odd"}
 	case 6:
 		return line{text: caseVerb(r, "DATA"), kind: "DATA"}
